@@ -56,6 +56,8 @@ class _S(str):
 import collections as _collections
 
 # values of the JSON kinds that are instances of subclasses of dict / list / str
+# several nodes of which the second / last is null
+CHILDREN += [{"a": 1, "b": None}, [None, None], [1, None], [None, 1], {"a": None, "b": None, "c": 2}]
 CHILDREN += [_collections.OrderedDict([("a", 1), ("b", [])]), _collections.OrderedDict(), _L([1, {"a": 1}]), _L(), _S("abc"),
              {"a": _S("xy"), "b": _L([0])}, {"a": _collections.OrderedDict([("k", 1)])}]
 
